@@ -226,6 +226,7 @@ def install(mode, solver="glpk"):
     logging.disable(logging.CRITICAL)
     warnings.filterwarnings("ignore")
     cfg = cobra.Configuration()
+    cfg.processes = 1           # analyses that take their process count from the configuration run serially (C14 passes it explicitly)
     if mode == "symbolic":
         cobra.util.solver.solvers["symlp"] = symlp
         cobra.util.solver.solvers["symlp_twin"] = symlp.TWIN
